@@ -39,7 +39,7 @@ Ltac dmi :=
 
 Ltac unf :=
   unfold step, loop_step, dial_step, watch_step, sup_step, resume_resp_step, start_step, wake_step, resp_step,
-    fail_step, ctx_step, write_step, stream_close_step, close_call_step, close_disc_step, close_wire_step,
+    fail_step, ctx_step, write_step, stream_close_step, stream_close_resp_step, close_call_step, close_disc_step, close_wire_step,
     st_cas, st_cas_not, st_swap, wait_until, closed_hooker, is_closed, writable,
     set_status, set_up, set_wclosed, set_loop, set_counts, set_streams, set_reqs, set_close, set_wire in *.
 
@@ -869,3 +869,62 @@ Proof.
       * left. apply N.eqb_neq. exact X.
       * right. apply negb_false_iff. exact X.
 Qed.
+
+(* ------------------------------------------------------------------------------------------ *)
+(* C10: at most one close request per stream over any history, however many Close calls overlap *)
+
+Definition ncloseReq (i : N) (o : list out) : nat :=
+  length (filter (fun x => match x with OCloseReq _ j => j =? i | _ => false end) o).
+Definition bq (p : sphase) : nat := match p with SClosed _ _ | SDraining => 0 | _ => 1 end.
+Definition sql (l : list stream) (i : N) : nat :=
+  match find_s i l with Some s => bq (s_phase s) | None => 1 end.
+
+Lemma ncloseReq_app : forall i a b, ncloseReq i (a ++ b) = (ncloseReq i a + ncloseReq i b)%nat.
+Proof. intros. unfold ncloseReq. rewrite filter_app, app_length. reflexivity. Qed.
+Lemma sql_le1 : forall l i, (sql l i <= 1)%nat.
+Proof. intros. unfold sql. destruct (find_s i l) as [s|]; [destruct (s_phase s); cbn; lia|lia]. Qed.
+Lemma sql_upd : forall l i j f s0, find_s j l = Some s0 -> (forall s, s_id (f s) = s_id s) ->
+  sql (upd_s j f l) i = if j =? i then bq (s_phase (f s0)) else sql l i.
+Proof.
+  intros l i j f s0 F Hf. unfold sql. destruct (j =? i) eqn:E.
+  - apply N.eqb_eq in E. subst. rewrite (find_upd_same _ _ _ _ Hf F). reflexivity.
+  - apply N.eqb_neq in E. rewrite find_upd_other by assumption. reflexivity.
+Qed.
+Lemma sql_found : forall l j s0, find_s j l = Some s0 -> sql l j = bq (s_phase s0).
+Proof. intros l j s0 F. unfold sql. rewrite F. reflexivity. Qed.
+Lemma sql_app_le : forall l l' i, (sql (l ++ l') i <= sql l i)%nat.
+Proof.
+  intros. unfold sql at 2. destruct (find_s i l) as [s|] eqn:F.
+  - unfold sql. rewrite (find_app_some _ l' _ _ F). lia.
+  - apply sql_le1.
+Qed.
+
+Lemma closereq_step : forall c e i,
+  (ncloseReq i (snd (step c e)) + sql (c_streams (fst (step c e))) i <= sql (c_streams c) i)%nat.
+Proof.
+  intros c e i. unfold ncloseReq.
+  destruct e; unf; cbn; dmi; cbn in *; try lia;
+    try (pose proof (sql_app_le (c_streams c)); cbn in *; auto; fail);
+    try (erewrite sql_upd by (try eassumption; reflexivity);
+         match goal with |- context [?j =? i] => destruct (j =? i) eqn:E end;
+         [apply N.eqb_eq in E; subst; erewrite sql_found by eassumption;
+          repeat match goal with H : s_phase _ = _ |- _ => rewrite H end; cbn; lia
+         |cbn; lia]).
+  all: erewrite sql_upd by (try eassumption; reflexivity);
+       destruct (i0 =? i) eqn:E; [apply N.eqb_eq in E; subst; erewrite sql_found by eassumption; cbn; lia|lia].
+Qed.
+
+Lemma closereq_run : forall evs c i, (ncloseReq i (snd (run c evs)) <= sql (c_streams c) i)%nat.
+Proof.
+  induction evs as [|e evs IH]; intros c i; [cbn; lia|].
+  rewrite run_cons. cbn [snd]. rewrite ncloseReq_app.
+  pose proof (closereq_step c e i). pose proof (IH (fst (step c e)) i). lia.
+Qed.
+
+(* three overlapping Close calls of one stream, the response withheld until all three were issued *)
+Lemma overlapping_close_once :
+  let r := run (init faithful) [EStart 0 KOpenUp; EWake 0; EResp 0; EWrite 0;
+                                EStreamClose 0; EStreamClose 0; EStreamClose 0; EStreamCloseResp 0; EStreamCloseResp 0;
+                                EStreamClose 0] in
+  closereqs_of (snd r) = [0] /\ sclosed_of (snd r) = [(0, false)] /\ finals_of (fst r) = [(0, 2)].
+Proof. vm_compute. repeat split. Qed.
